@@ -21,6 +21,14 @@ const (
 	wideB   = float64(1 << 32)
 	addB    = float64(1 << 16)
 	costCap = 1 << 11
+	// Byte strings: the VM refuses items above 131070 bytes (a resource limit outside the Go semantics), so the
+	// lengths are bounded the same way: a stored string is at most strStore long when stored by a plain store and
+	// grows by at most 16 per += (strVar in total); a function result is at most strRes; the operands of one
+	// concatenation add up to at most strLim.
+	strStore = 4096
+	strVar   = 4096 + 16*costCap // 36864
+	strRes   = 60000
+	strLim   = 120000
 )
 
 // Keys of known findings: when a key is listed as "known" in known_findings.json the generator never produces
@@ -64,6 +72,8 @@ type vinfo struct {
 	nodel   bool
 	param   bool
 	maybeNil bool // []byte: may hold the zero value (nil)
+	maxLen   float64 // string / []byte: upper bound of the length
+	noAppend bool    // string: += is not allowed (the bound has no room for growth)
 }
 
 type fsig struct {
@@ -231,6 +241,7 @@ type ex struct {
 	ascii  bool
 	short  bool
 	fresh  bool // struct values: not an alias of a stored value
+	maxLen float64 // strings / byte slices: upper bound of the length
 }
 
 func mag(e ex) float64 { return math.Max(math.Abs(e.lo), math.Abs(e.hi)) }
@@ -879,6 +890,9 @@ func (g *gen) genArgs(f *fsig, d int) ([]*Node, ex, bool) {
 			if p.Type == "int" {
 				a = fitStore(a)
 			}
+			if p.Type == "string" && a.maxLen > strVar {
+				a = g.shortStr()
+			}
 		}
 		acc.pan = acc.pan || a.pan
 		acc.hard = acc.hard || a.hard
@@ -1041,6 +1055,9 @@ func (g *gen) genFreshOf(typ string, d int) (ex, bool) {
 			e = g.genBool(d - 1)
 		case "string":
 			e = g.genStr(d - 1)
+			if e.maxLen > strVar {
+				e = g.shortStr()
+			}
 		default:
 			var ok bool
 			e, ok = g.genFreshOf(f.Type, d-1)
@@ -1099,10 +1116,10 @@ func (g *gen) genBool(d int) ex {
 			ops = []string{"<", ">", "<=", ">="}
 			g.mark("string-order")
 		}
-		if (a.n.K == "bin" || b.n.K == "bin") && !g.on(kConcatCmp) {
-			// a concatenation compared directly
-			a = g.strLeaf()
-			b = g.strLeaf()
+		if (!a.short || !b.short) && !g.on(kConcatCmp) {
+			// a value that may come from a concatenation (a Buffer in the VM) would be compared
+			a = g.shortStr()
+			b = g.shortStr()
 		}
 		g.mark("string-compare")
 		return ex{n: bin(ops[g.n(len(ops), "sop")], a.n, b.n), pan: a.pan || b.pan, hard: a.hard || b.hard, konst: a.konst && b.konst}
@@ -1124,10 +1141,20 @@ var strLits = []string{"", "a", "b", "ab", "abc", "hello", "zz", "x1", "Neo", "0
 func (g *gen) strLeaf() ex {
 	if v := g.pickVar("string", nil); v != nil && g.chance(60) {
 		g.useVar(v)
-		return ex{n: vr(v.name), minLen: v.minLen, ascii: v.ascii, short: !v.growing}
+		return ex{n: vr(v.name), minLen: v.minLen, ascii: v.ascii, short: !v.growing, maxLen: v.maxLen}
 	}
 	s := strLits[g.n(len(strLits), "slit")]
-	return ex{n: slitS(s), konst: true, minLen: len(s), ascii: true, short: true}
+	return ex{n: slitS(s), konst: true, minLen: len(s), ascii: true, short: true, maxLen: float64(len(s))}
+}
+
+// shortStr is a string leaf that certainly does not stem from a concatenation.
+func (g *gen) shortStr() ex {
+	if v := g.pickVar("string", func(v *vinfo) bool { return !v.growing }); v != nil && g.chance(60) {
+		g.useVar(v)
+		return ex{n: vr(v.name), minLen: v.minLen, ascii: v.ascii, short: true, maxLen: v.maxLen}
+	}
+	s := strLits[g.n(len(strLits), "slit")]
+	return ex{n: slitS(s), konst: true, minLen: len(s), ascii: true, short: true, maxLen: float64(len(s))}
 }
 
 func (g *gen) genStr(d int) ex {
@@ -1143,8 +1170,14 @@ func (g *gen) genStr(d int) ex {
 			a = g.strLeaf()
 		}
 		g.mark("string-concat")
+		if a.maxLen+b.maxLen > strLim {
+			b = g.shortStr()
+		}
+		if a.maxLen+b.maxLen > strLim {
+			a = g.shortStr()
+		}
 		return ex{n: bin("+", a.n, b.n), pan: a.pan || b.pan, hard: a.hard || b.hard, konst: a.konst && b.konst,
-			minLen: a.minLen + b.minLen, ascii: a.ascii && b.ascii}
+			minLen: a.minLen + b.minLen, ascii: a.ascii && b.ascii, maxLen: a.maxLen + b.maxLen}
 	case 2:
 		// substring of a variable
 		v := g.pickVar("string", nil)
@@ -1173,18 +1206,20 @@ func (g *gen) genStr(d int) ex {
 			return g.strLeaf()
 		}
 		g.mark("substring")
-		return ex{n: &Node{K: "slice", A: []*Node{vr(v.name), lo, hi}}, hard: pan, ascii: v.ascii, short: !v.growing, minLen: max(h-l, 0)}
+		return ex{n: &Node{K: "slice", A: []*Node{vr(v.name), lo, hi}}, hard: pan, ascii: v.ascii, short: !v.growing, minLen: max(h-l, 0), maxLen: v.maxLen}
 	case 3:
 		b := g.genBytes(d - 1)
 		g.mark("bytes-to-string")
-		return ex{n: &Node{K: "conv", T: "string", A: []*Node{b.n}}, pan: b.pan, hard: b.hard, minLen: b.minLen, short: b.short}
+		return ex{n: &Node{K: "conv", T: "string", A: []*Node{b.n}}, pan: b.pan, hard: b.hard, minLen: b.minLen, short: b.short, maxLen: b.maxLen}
 	case 4:
 		if e, ok := g.genCall("string", d); ok {
+			e.maxLen = strRes
 			return e
 		}
 		return g.strLeaf()
 	default:
 		if e, ok := g.genFieldRead("string"); ok {
+			e.maxLen = strVar
 			return e
 		}
 		return g.strLeaf()
@@ -1206,12 +1241,12 @@ func (g *gen) genBytes(d int) ex {
 		if v.maybeNil {
 			g.mark("nil-bytes-use")
 		}
-		return ex{n: vr(v.name), minLen: v.minLen, short: !v.growing}
+		return ex{n: vr(v.name), minLen: v.minLen, short: !v.growing, maxLen: v.maxLen}
 	}
 	if d > 0 && g.chance(40) {
 		s := g.genStr(d - 1)
 		g.mark("string-to-bytes")
-		return ex{n: &Node{K: "conv", T: "[]byte", A: []*Node{s.n}}, pan: s.pan, hard: s.hard, minLen: s.minLen, short: s.short, fresh: true}
+		return ex{n: &Node{K: "conv", T: "[]byte", A: []*Node{s.n}}, pan: s.pan, hard: s.hard, minLen: s.minLen, short: s.short, fresh: true, maxLen: s.maxLen}
 	}
 	k := g.rng(0, 4, "bl")
 	n := &Node{K: "slit", T: "[]byte"}
@@ -1226,5 +1261,5 @@ func (g *gen) genBytes(d int) ex {
 		}
 	}
 	g.mark("bytes-literal")
-	return ex{n: n, minLen: k, short: true, fresh: true, pan: pan, hard: hard}
+	return ex{n: n, minLen: k, short: true, fresh: true, pan: pan, hard: hard, maxLen: float64(k)}
 }
